@@ -31,3 +31,27 @@ Theorem C11_no_error : forall (A : Type) (l : list A) ks,
   exists r, shuffle_layer l ks = Some r.
 Proof. exact @shuffle_layer_no_error. Qed.
 Print Assumptions C11_no_error.
+
+(* With the same seed and the same discovered tests the order is identical whatever order the layers were discovered in … *)
+From ZT Require Import ShuffleOrder.
+Theorem C11_independent_of_discovery_order : forall (A : Type) (ls ls' : list (str * list A)) ks,
+  NoDup (map fst ls) -> Permutation ls ls' -> shuffle_all ls ks = shuffle_all ls' ks.
+Proof. exact @shuffle_independent_of_discovery_order. Qed.
+Print Assumptions C11_independent_of_discovery_order.
+
+(* … and in every process of a run: each one shuffles all it discovered and narrows down afterwards (--layer, the layer of a
+   resumed or -j child, --list-tests), so a layer kept by two processes has the same order in both. *)
+Theorem C11_same_order_in_every_process : forall (A : Type) keep1 keep2 (ls : list (str * list A)) ks v1 v2 n,
+  process_view keep1 ls ks = Some v1 -> process_view keep2 ls ks = Some v2 ->
+  keep1 n = true -> keep2 n = true -> alookup n v1 = alookup n v2.
+Proof. exact @kept_layer_has_the_unfiltered_order. Qed.
+Print Assumptions C11_same_order_in_every_process.
+
+(* (a process that shuffled only its own layer would not: the numbers a layer receives depend on the layers before it) *)
+Theorem C11_shuffling_only_the_own_layer_refuted :
+  let ls := [([65%N], [1; 2; 3]%N); ([66%N], [4; 5; 6]%N)] in
+  let ks := [2 ^ 52; 0; 2 ^ 52 + 2 ^ 51; 1]%N in
+  exists a b, shuffle_all ls ks = Some a /\ shuffle_all (filter (fun p => str_eqb (fst p) [66%N]) ls) ks = Some b /\
+              alookup [66%N] a <> alookup [66%N] b.
+Proof. exact shuffling_only_the_own_layer_differs. Qed.
+Print Assumptions C11_shuffling_only_the_own_layer_refuted.
